@@ -166,6 +166,19 @@ def check(rep, tier, seed):
     else:
         rep.add(Query("utf-16 decoder: piece producer recognised", "inconclusive", str(producer), 0, "mirsym", key="C13.utf16"))
 
+    # 6. the key-keeper loop's time arithmetic: every slice of loop_poll that starts at a reading of the clock (Instant::elapsed, any value)
+    #    and runs to the next sleep: an arithmetic-overflow assert must not be reachable (debug build: panic of the task; release build:
+    #    the wrapped value becomes the sleep length, the task never polls again)
+    lp = ctx.method("KeyKeeper", "loop_poll") + "::{closure#0}"
+    eng6 = ctx.engine(loop_bound=1, max_paths=6000, timeout=300)
+    tpaths, tpan = [], []
+    for sb in eng6.find_blocks(lp, r"Instant::elapsed$"):
+        ps = eng6.explore(lp, start_bb=sb, stop_calls=r"tokio::time::sleep$|(^|::)sleep$|Instant::now$|get_status$|provision_timeup$|start_event_threads$")
+        tpaths += ps
+        tpan += [r for r in ps if r.status == "panic" and re.search(r"overflow|subtract|attempt to", r.note or "")]
+    rep.functions_encoded.append(lp + " [slices from every Instant::elapsed() to the next sleep]")
+    results["looptime"] = (tpaths, tpan)
+
     # ---- native replays (only for sites with feasible panic paths) ----
     need = {k for k, (ps, pan) in results.items() if pan}
     native = {}
@@ -188,6 +201,12 @@ def check(rep, tier, seed):
         native["utf16body"] = "FAILED" if "FAILED" in (res.get("c13_odd_length_utf16_body"), res.get("c13_one_byte_utf16_body")) else res.get("c13_one_byte_utf16_body")
         files["status"] = save_replay("C13", "get_module_status.rs", "// append to proxy_agent/src/shared_state/agent_status_wrapper.rs\n" + TEST_STATUS)
         files["headers"] = files["utf16"] = files["utf16body"] = save_replay("C13", "hyper_client.rs", "// append to proxy_agent/src/common/hyper_client.rs\n" + TEST_HEADERS)
+    if "looptime" in need:
+        import batteries
+        pkg, inj6, flt, no_args = batteries.BATTERIES["C13"][0][:4]
+        r6, out6 = replay_mod.run_rust_tests(pkg, inj6, flt, no_args=no_args, timeout=2400)
+        native["looptime"] = (r6 or {}).get("c13_notifications_at_any_time_do_not_stop_the_key_keeper")
+        files["looptime"] = save_replay("C13", "loop_poll_notify_timing.rs", "// append to proxy_agent/src/key_keeper.rs; cargo test -p azure-proxy-agent (whole binary), look for c13_notifications\n" + batteries.C13_NOTIFY)
     if "summary" in need:
         # an enforced denial of a caller whose command line is long multi-byte text: error details exceed 4096 bytes
         T = []
@@ -206,14 +225,14 @@ def check(rep, tier, seed):
         native["summary"] = "FAILED" if "FAILED" in sts else ("ok" if all(s == "ok" for s in sts) else None)
         files["summary"] = save_replay("C13", "log_connection_summary_e2e.rs", "// e2e: caller command line = VERIF_CMDLINE_PREFIX + 4000 x U+00E9; run with prefix \"\" and \"a\" (one of them puts byte 4096 inside a character)\n" + full)
     names = {"event": "event_logger::write_event (message[..4096])", "summary": "log_connection_summary (error_details.truncate(4096))", "status": "get_module_status (&message[0..1024])",
-             "headers": "headers_to_canonicalized_string (value.to_str().unwrap())", "utf16": "read_response_body utf-16 decoder (chunk[1])", "utf16body": "read_response_body frame loop (indexing / slicing of a body frame)"}
+             "headers": "headers_to_canonicalized_string (value.to_str().unwrap())", "utf16": "read_response_body utf-16 decoder (chunk[1])", "utf16body": "read_response_body frame loop (indexing / slicing of a body frame)",
+             "looptime": "KeyKeeper::loop_poll time arithmetic between a clock reading and the next sleep (elapsed time is any value)"}
     for k, (ps, pan) in results.items():
         site_result(rep, "C13." + k, names[k], ps, pan, native.get(k), files.get(k))
-    rep.bounds["sites"] = "five enumerated mechanisms of the property's anchors; loops bounded at 2 iterations"
+    rep.bounds["sites"] = "five enumerated mechanisms of the property's anchors plus the time arithmetic of the key-keeper loop; loops bounded at 2 iterations"
     rep.assumptions += ["text is valid UTF-8 (Rust String invariant); an offset inside a string is a char boundary or not, independently of other offsets (uninterpreted predicate, 0 and len are boundaries)",
                         "http::HeaderValue::to_str is Err iff some byte is not visible ASCII (documented)"]
-    rep.outside_claim += ["`sleep.as_millis() - slept` in loop_poll (u128 underflow when a notified wake-up takes longer than the poll interval): the overflow assert is visible in the MIR but no native replay was built, so it is neither claimed nor listed as a finding",
-                          "every other unwrap/index in the tree, panics inside dependencies, liveness of the listener after a task panic"]
+    rep.outside_claim += ["every other unwrap/index in the tree, panics inside dependencies, liveness of the listener after a task panic"]
     rep.trusted += ["mirsym", "z3"]
 
 
